@@ -17,6 +17,7 @@ import RedisVerif.Model.Codec
     C <k> <t> <l> <hex>          → checkpoint image written by the model
     IC <hex>                     → set base checkpoint image; read it
     ct <len> | cx <pos> <val> | ca <hex>   → read the truncated / substituted / extended base checkpoint
+    g <variant> <len>            → the round-trip law of the gossip codec ("roundtrip ok")
     W <ts> <hex>                 → encoded WAL entry for the payload (from_delta + encode)
     wd <hex>                     → WalEntry::decode
 -/
@@ -59,6 +60,10 @@ def step (s : St) (line : String) : St × String :=
   match tokens line with
   | ["V", v, k] => ({ s with fmt := if v == "1" then .v1 else .v2, strict := k != "0" },
       s!"format {if v == "1" then 1 else 2} strict {if k != "0" then 1 else 0}")
+  | "g" :: _ =>
+    -- gossip codec instance (`Codec.gossip`): serde_json itself is not modelled; the line states the
+    -- law `de (ser m) = some m` and the implementation's answer is compared with it
+    (s, "roundtrip ok")
   | "S" :: rest =>
     let p : P (List (Nat × Bytes)) := do
       let n ← nat
